@@ -46,7 +46,8 @@ assert len(_T) == 28
 
 def check(case, ctx):
     G = lib()
-    a, b, tag = case
+    a, b, tag = case[0], case[1], case[2]
+    var = case[3] if len(case) > 3 else B.DEFAULT_VAR
     r = X.inter(a, b)
     pair = "%s-%s" % (a[0], b[0])
     cls = "%s:%s" % (pair, B.kind_name(r))
@@ -61,7 +62,7 @@ def check(case, ctx):
         from ..common import HarnessError
 
         raise HarnessError("exact oracle kind %s not in documented table for %s: transcription error" % (B.kind_name(r), pair))
-    oa, ob = B.build(a), B.build(b)
+    oa, ob = B.build_var(a, b, var)
     res = {}
     calls = [("intersection(a,b)", G.intersection, (oa, ob)), ("intersection(b,a)", G.intersection, (ob, oa))]
     if a[0] != "P":
@@ -96,7 +97,7 @@ def check(case, ctx):
 
 
 def admit(case, fail):
-    a, b, _t = case
+    a, b = case[0], case[1]
     r = X.inter(a, b)
     if a[0] in X.FLAT and b[0] in X.FLAT:
         return A.flat_case_margin(a, b, r).reason()
@@ -145,37 +146,37 @@ def strata(tier):
                 recs = gen.flat_recipes(ka, kb)
                 n = max(16, (160 if q else 3000) // len(recs))
                 for rec in recs:
-                    out.append(Stratum(pre + rec, "hyp", flat_case(ka, kb, rec), n))
+                    out.append(Stratum(pre + rec, "hyp", gen.with_variant(flat_case(ka, kb, rec)), n))
             elif ka in FLAT and kb in BODY:
                 recs = FB_RECIPES[ka]
                 n = max(16, (130 if q else 2500) // (len(recs) + (2 if ka == "PL" else 0)))
                 for fs in recs:
-                    out.append(Stratum(pre + "-".join(fs), "hyp", c02.case_for(kb, ka, *fs), n))
+                    out.append(Stratum(pre + "-".join(fs), "hyp", gen.with_variant(c02.case_for(kb, ka, *fs)), n))
                 if ka == "PL":
                     for rec in ("face", "tangent-V"):
-                        out.append(Stratum(pre + rec, "hyp", c02.case_special_plane(kb, rec), n))
+                        out.append(Stratum(pre + rec, "hyp", gen.with_variant(c02.case_special_plane(kb, rec)), n))
             elif ka in BODY and kb in FLAT:
                 recs = FB_RECIPES[kb]
                 n = max(16, (130 if q else 2500) // (len(recs) + (2 if kb == "PL" else 0)))
                 for fs in recs:
-                    out.append(Stratum(pre + "-".join(fs), "hyp", swap(c02.case_for(ka, kb, *fs)), n))
+                    out.append(Stratum(pre + "-".join(fs), "hyp", gen.with_variant(swap(c02.case_for(ka, kb, *fs))), n))
                 if kb == "PL":
                     for rec in ("face", "tangent-V"):
-                        out.append(Stratum(pre + rec, "hyp", swap(c02.case_special_plane(ka, rec)), n))
+                        out.append(Stratum(pre + rec, "hyp", gen.with_variant(swap(c02.case_special_plane(ka, rec))), n))
             elif ka == "G" and kb == "G":
                 n = 16 if q else 300
                 for r in c03.GG_COPLANAR:
-                    out.append(Stratum(pre + "coplanar/" + r, "hyp", c03.gg_coplanar(r), n))
+                    out.append(Stratum(pre + "coplanar/" + r, "hyp", gen.with_variant(c03.gg_coplanar(r)), n))
                 for r in c03.GG_CROSSING:
-                    out.append(Stratum(pre + "crossing/" + r, "hyp", c03.gg_crossing(r), n))
+                    out.append(Stratum(pre + "crossing/" + r, "hyp", gen.with_variant(c03.gg_crossing(r)), n))
             elif ka == "K" and kb == "K":
                 n = 16 if q else 160
                 for r in c03.KK:
-                    out.append(Stratum(pre + r, "hyp", c03.kk(r), n))
+                    out.append(Stratum(pre + r, "hyp", gen.with_variant(c03.kk(r)), n))
             else:
                 n = 16 if q else 200
                 for r in c03.GK:
-                    out.append(Stratum(pre + r, "hyp", _gk_ordered(ka, r), n))
+                    out.append(Stratum(pre + r, "hyp", gen.with_variant(_gk_ordered(ka, r)), n))
     return out
 
 
